@@ -3,7 +3,6 @@
 //! the deterministic executor (so that tasks the library spawns are polled under catch_unwind too),
 //! and over the TCP transport with a constant resolver inside a real runtime.
 
-use super::c01::RouteTransport;
 use super::common::*;
 use super::tlsfix;
 use crate::det::Sched;
@@ -21,7 +20,7 @@ use serde_json::json;
 use std::cell::RefCell;
 use std::collections::BTreeSet;
 use std::sync::{Arc, Mutex};
-use tower::{Layer, Service, ServiceExt};
+use tower::{Layer, ServiceExt};
 
 thread_local! {
     static PANICS: RefCell<Vec<String>> = const { RefCell::new(Vec::new()) };
@@ -115,13 +114,41 @@ fn run_case(c: &Case, entry: Entry, tp: Tp, fx: &Fx) -> (String, Vec<String>) {
     (o, p)
 }
 
-/// Same, under a given schedule prefix; also returns the scheduling points met (for the explorer).
-fn run_case_sched(c: &Case, entry: Entry, tp: Tp, fx: &Fx, schedule: &[usize]) -> (String, Vec<String>, Vec<crate::det::Point>) {
+/// Transport that sends a connection to the TLS listener exactly when the TLS transport will wrap
+/// it (TLS configured and scheme https/wss), else to the plain listener.
+#[derive(Clone, Debug)]
+pub struct SchemeRoute {
+    plain: duplex::DuplexClient,
+    tls: duplex::DuplexClient,
+    tls_on: bool,
+}
+
+impl tower::Service<http::request::Parts> for SchemeRoute {
+    type Response = duplex::DuplexStream;
+    type Error = std::io::Error;
+    type Future = std::pin::Pin<Box<dyn std::future::Future<Output = Result<duplex::DuplexStream, std::io::Error>> + Send>>;
+    fn poll_ready(&mut self, _: &mut std::task::Context<'_>) -> std::task::Poll<Result<(), Self::Error>> {
+        std::task::Poll::Ready(Ok(()))
+    }
+    fn call(&mut self, req: http::request::Parts) -> Self::Future {
+        let secure = matches!(req.uri.scheme_str(), Some("https") | Some("wss"));
+        let c = if self.tls_on && secure { self.tls.clone() } else { self.plain.clone() };
+        Box::pin(async move { c.connect(4096).await })
+    }
+}
+
+/// A sequence of requests sent one after the other through ONE client / service instance (so the
+/// second request meets whatever state the first left behind). Outcome classes joined with " ; ".
+fn run_seq(cs: &[&Case], entry: Entry, tp: Tp, fx: &Fx, schedule: &[usize]) -> (String, Vec<String>, Vec<crate::det::Point>) {
     PANICS.with(|p| p.borrow_mut().clear());
-    let Some(req) = build_request(c) else { return ("unbuildable".into(), vec![], vec![]) };
+    let mut reqs = vec![];
+    for c in cs {
+        let Some(req) = build_request(c) else { return ("unbuildable".into(), vec![], vec![]) };
+        reqs.push(req);
+    }
+    let n_reqs = reqs.len();
     let mut s = Sched::new(schedule.to_vec());
     let obs = new_obs();
-    // two servers: plain and TLS, each reachable through its own duplex listener
     let (cp, ip) = duplex::pair();
     let (ct, it) = duplex::pair();
     {
@@ -140,56 +167,72 @@ fn run_case_sched(c: &Case, entry: Entry, tp: Tp, fx: &Fx, schedule: &[usize]) -
             let _ = server.await;
         });
     }
-    // every connection goes to the TLS listener when the transport will wrap it in TLS, else to the plain one
-    let secure = matches!(req.uri().scheme_str(), Some("https") | Some("wss"));
-    let route = if tp == Tp::Tls && secure { super::c01::route(ct.clone(), ct.clone(), 4096) } else { super::c01::route(cp.clone(), cp.clone(), 4096) };
+    let route = SchemeRoute { plain: cp.clone(), tls: ct.clone(), tls_on: tp == Tp::Tls };
     let transport = match tp {
-        Tp::Plain => TlsTransport::new(route),
-        Tp::Tls => TlsTransport::new(route).with_tls(fx.client_config.clone()),
+        Tp::Plain => TlsTransport::new(route.clone()),
+        Tp::Tls => TlsTransport::new(route.clone()).with_tls(fx.client_config.clone()),
     };
-    let result: Arc<Mutex<Option<Result<u16, String>>>> = Arc::new(Mutex::new(None));
-    let r2 = result.clone();
+    let results: Arc<Mutex<Vec<Result<u16, String>>>> = Arc::new(Mutex::new(vec![]));
+    let r2 = results.clone();
     macro_rules! stack {
         () => {
             SetHostHeaderLayer::new().layer(Http2ChecksLayer::new().layer(Http1ChecksLayer::new().layer(RequestExecutor::new())))
         };
     }
-    let build = std::panic::catch_unwind(std::panic::AssertUnwindSafe(|| -> std::pin::Pin<Box<dyn std::future::Future<Output = Res> + Send>> {
+    type Fut = std::pin::Pin<Box<dyn std::future::Future<Output = Res> + Send>>;
+    let build = std::panic::catch_unwind(std::panic::AssertUnwindSafe(|| -> Box<dyn FnMut(http::Request<Body>) -> Fut + Send> {
         match entry {
             Entry::Client => {
-                let b = hyperdriver::Client::builder().with_auto_http().with_transport(super::c01::route(if tp == Tp::Tls && secure { ct.clone() } else { cp.clone() }, cp.clone(), 4096)).with_default_pool().without_timeout();
-                let mut client = match tp {
+                let b = hyperdriver::Client::builder().with_auto_http().with_transport(route.clone()).with_default_pool().without_timeout();
+                let client = match tp {
                     Tp::Plain => b.without_tls().build(),
                     Tp::Tls => b.with_tls((*fx.client_config).clone()).build(),
                 };
-                Box::pin(async move { client.request(req).await.map_err(|e| e.to_string()) })
+                Box::new(move |req| {
+                    let mut client = client.clone();
+                    Box::pin(async move { client.request(req).await.map_err(|e| e.to_string()) })
+                })
             }
             Entry::Pooled => {
                 let svc: ConnectionPoolService<_, _, _, Body> = ConnectionPoolService::new(transport, HttpConnectionBuilder::<Body>::default(), stack!(), Default::default());
-                Box::pin(async move { svc.oneshot(req).await.map(|r| r.map(Body::from)).map_err(|e| e.to_string()) })
+                Box::new(move |req| {
+                    let svc = svc.clone();
+                    Box::pin(async move { svc.oneshot(req).await.map(|r| r.map(Body::from)).map_err(|e| e.to_string()) })
+                })
             }
             Entry::Unpooled => {
                 let svc: ConnectionPoolService<_, _, _, Body> = ConnectionPoolService::new(transport, HttpConnectionBuilder::<Body>::default(), stack!(), Default::default()).without_pool();
-                Box::pin(async move { svc.oneshot(req).await.map(|r| r.map(Body::from)).map_err(|e| e.to_string()) })
+                Box::new(move |req| {
+                    let svc = svc.clone();
+                    Box::pin(async move { svc.oneshot(req).await.map(|r| r.map(Body::from)).map_err(|e| e.to_string()) })
+                })
             }
             Entry::Connector => {
                 let svc = ConnectorService::new(stack!(), transport, HttpConnectionBuilder::<Body>::default());
-                Box::pin(async move { svc.oneshot(req).await.map(|r| r.map(Body::from)).map_err(|e| e.to_string()) })
+                Box::new(move |req| {
+                    let svc = svc.clone();
+                    Box::pin(async move { svc.oneshot(req).await.map(|r| r.map(Body::from)).map_err(|e| e.to_string()) })
+                })
             }
         }
     }));
     match build {
         Err(_) => {}
-        Ok(fut) => {
+        Ok(mut send) => {
             s.spawn("caller", async move {
-                let r = fut.await;
-                let out = match r {
-                    Ok(resp) => Ok(resp.status().as_u16()),
-                    Err(e) => Err(e),
-                };
-                *r2.lock().unwrap() = Some(out);
+                for req in reqs {
+                    // the response body is read to its end, as a caller would, so that the connection goes back to the pool
+                    let r = send(req).await;
+                    match r {
+                        Ok(resp) => {
+                            r2.lock().unwrap().push(Ok(resp.status().as_u16()));
+                            let _ = http_body_util::BodyExt::collect(resp.into_body()).await;
+                        }
+                        Err(e) => r2.lock().unwrap().push(Err(e)),
+                    }
+                }
             });
-            s.horizon = 2000;
+            s.horizon = 4000;
             s.run();
         }
     }
@@ -203,14 +246,51 @@ fn run_case_sched(c: &Case, entry: Entry, tp: Tp, fx: &Fx, schedule: &[usize]) -
     if panics.is_empty() {
         panics = task_panics;
     }
-    let outcome = match result.lock().unwrap().clone() {
-        _ if replay_error.is_some() => format!("machinery: {}", replay_error.unwrap()),
-        Some(Ok(st)) => format!("ok-{st}"),
-        Some(Err(e)) => format!("err:{}", e.split(':').next().unwrap_or("").trim()),
-        None if livelock => "livelock".into(),
-        None => "no-result".into(),
+    let got = results.lock().unwrap().clone();
+    let outcome = if let Some(e) = replay_error {
+        format!("machinery: {e}")
+    } else {
+        let mut parts: Vec<String> = got
+            .iter()
+            .map(|r| match r {
+                Ok(st) => format!("ok-{st}"),
+                Err(e) => format!("err:{}", e.split(':').next().unwrap_or("").trim()),
+            })
+            .collect();
+        if got.len() < n_reqs {
+            parts.push(if livelock { "livelock".into() } else { "no-result".into() });
+        }
+        parts.join(" ; ")
     };
     (outcome, panics, points)
+}
+
+/// Same, under a given schedule prefix; also returns the scheduling points met (for the explorer).
+fn run_case_sched(c: &Case, entry: Entry, tp: Tp, fx: &Fx, schedule: &[usize]) -> (String, Vec<String>, Vec<crate::det::Point>) {
+    run_seq(&[c], entry, tp, fx, schedule)
+}
+
+/// Indices of a representative sub-grammar for the pair histories: no extra headers, no body,
+/// GET and CONNECT, one URI per (form, host kind).
+fn pair_representatives(cases: &[Case], thorough: bool) -> Vec<usize> {
+    let uris = [
+        "http://example.com/p?q=1", "https://example.com/p", "http://[::1]/p?q=1", "https://[::1]/p", "http://a..b/p?q=1", "https://a..b/p",
+        "wss://example.com/socket", "ftp://example.com/file", "/p?q=1", "example.com:443", "*",
+    ];
+    let versions: &[http::Version] = if thorough {
+        &[http::Version::HTTP_09, http::Version::HTTP_10, http::Version::HTTP_11, http::Version::HTTP_2, http::Version::HTTP_3]
+    } else {
+        &[http::Version::HTTP_09, http::Version::HTTP_11, http::Version::HTTP_2]
+    };
+    let mut v = vec![];
+    for (i, c) in cases.iter().enumerate() {
+        let method_ok = c.method == "GET" || c.method == "CONNECT" || (thorough && c.method == "POST" && c.body);
+        let hdr_ok = c.headers == 0 && (!c.body || c.method == "POST");
+        if method_ok && hdr_ok && uris.contains(&c.uri.as_str()) && versions.contains(&c.version) && (c.method != "POST" || c.body) {
+            v.push(i);
+        }
+    }
+    v
 }
 
 pub struct Fx {
@@ -222,6 +302,34 @@ fn replay(path: &str, fx: &Fx) -> i32 {
     let doc: serde_json::Value = serde_json::from_str(&std::fs::read_to_string(path).expect("replay file")).expect("json");
     let rp = doc.get("replay").cloned().unwrap_or(doc);
     let cases = grammar();
+    if let Some(pair) = rp.get("pair").and_then(|x| x.as_array()) {
+        let idx: Vec<usize> = pair.iter().filter_map(|x| x.as_u64()).map(|x| x as usize).collect();
+        if idx.len() != 2 || idx.iter().any(|i| *i >= cases.len()) {
+            println!("MACHINERY-ERROR bad pair in replay file");
+            return 2;
+        }
+        let entry = match rp.get("entry").and_then(|x| x.as_str()) {
+            Some("Pooled") => Entry::Pooled,
+            _ => Entry::Client,
+        };
+        let tp = if rp.get("transport").and_then(|x| x.as_str()) == Some("Tls") { Tp::Tls } else { Tp::Plain };
+        install_hook();
+        let (o1, p1, _) = run_seq(&[&cases[idx[0]], &cases[idx[1]]], entry, tp, fx, &[]);
+        let (o2, p2, _) = run_seq(&[&cases[idx[0]], &cases[idx[1]]], entry, tp, fx, &[]);
+        let _ = std::panic::take_hook();
+        if o1 != o2 || p1 != p2 {
+            println!("MACHINERY-ERROR replay diverged");
+            return 2;
+        }
+        println!("pair {:?} then {:?} through {entry:?} over {tp:?}: outcome [{o1}], panics {p1:?}", cases[idx[0]], cases[idx[1]]);
+        return if p1.is_empty() && !o1.contains("no-result") && !o1.contains("livelock") {
+            println!("replay holds");
+            0
+        } else {
+            println!("VIOLATION property=C17 replay={path}");
+            1
+        };
+    }
     let Some(c) = rp.get("case_index").and_then(|x| x.as_u64()).and_then(|i| cases.get(i as usize)) else {
         println!("MACHINERY-ERROR replay file has no case_index (TCP-transport artefacts: re-run ./check C17)");
         return 2;
@@ -349,6 +457,61 @@ pub fn run(args: &Args) -> i32 {
         }
         run.cov("schedules_with_one_deviation", execs);
         n += execs;
+    }
+    // histories of two requests through ONE client / service instance: every ordered pair of a
+    // representative sub-grammar, so that the second request meets the pool state, in-flight markers
+    // and connections the first one (often a failing one) left behind
+    {
+        let reps: Vec<usize> = pair_representatives(&cases, args.tier.is_thorough());
+        let mut pitems: Vec<(usize, usize, Entry, Tp)> = vec![];
+        for &a in &reps {
+            for &b in &reps {
+                for e in [Entry::Client, Entry::Pooled] {
+                    for t in tps {
+                        pitems.push((a, b, e, t));
+                    }
+                }
+            }
+        }
+        let pchunk = ((pitems.len() + threads * 4 - 1) / (threads * 4)).max(1);
+        let pchunks: Vec<&[(usize, usize, Entry, Tp)]> = pitems.chunks(pchunk).collect();
+        let presults = crate::evidence::par_map(pchunks.len(), threads, |ci| {
+            pchunks[ci]
+                .iter()
+                .map(|(a, b, e, t)| {
+                    let (o, p, _) = run_seq(&[&cases[*a], &cases[*b]], *e, *t, &fx, &[]);
+                    (*a, *b, *e, *t, o, p)
+                })
+                .collect::<Vec<_>>()
+        });
+        let mut pair_classes: BTreeSet<String> = BTreeSet::new();
+        let mut pn = 0u64;
+        for chunk in presults {
+            for (a, b, e, t, outcome, panics) in chunk {
+                pn += 1;
+                let (ca, cb) = (&cases[a], &cases[b]);
+                pair_classes.insert(format!("{e:?}|{t:?}|{}|{}|{outcome}", ca.uri_class, cb.uri_class));
+                let bad = !panics.is_empty() || outcome.contains("no-result") || outcome.contains("livelock");
+                if outcome.starts_with("machinery") {
+                    println!("MACHINERY-ERROR {outcome}");
+                    let _ = run.finish();
+                    return 2;
+                }
+                if bad {
+                    let what = if panics.is_empty() { "no-result" } else { "panic" };
+                    let loc = panics.first().map(|p| p.split(':').take(2).collect::<Vec<_>>().join(":")).unwrap_or_default();
+                    run.violation(
+                        format!("pair {what} {loc} entry={e:?} first={} second={}", ca.uri_class, cb.uri_class),
+                        format!("sending {} {} {:?} and then {} {} {:?} through one {e:?} over {t:?}: outcome [{outcome}], panics {panics:?}", ca.method, ca.uri, ca.version, cb.method, cb.uri, cb.version),
+                        json!({"engine":"schedmc-c17","pair":[a,b],"entry":format!("{e:?}"),"transport":format!("{t:?}")}),
+                    );
+                }
+            }
+        }
+        run.cov("request_pairs_executed", pn);
+        run.cov("request_pair_representatives", reps.len() as u64);
+        run.cov("request_pair_outcome_classes", pair_classes.len() as u64);
+        n += pn;
     }
     // TCP transport (get_host_and_port path) in a real runtime against a closed loopback port
     let tcp = tcp_cases(&cases);
